@@ -105,7 +105,18 @@ let show (r : download lres) : string = match r with
         | LFault -> head ^ " | OPEN:FAULT"
       end
 
+(* --cov: instead of results, print the branch tags of the MODEL's magnet parser reached by each
+   U case (Model.magnet_branches; ProofsTrace: the traced parser computes the same results) *)
+let cov_mode = Array.length Sys.argv > 1 && Sys.argv.(1) = "--cov"
+
 let () = each_line (fun line ->
+  if cov_mode then
+    (match split_ws line with
+     | ["U"; h] ->
+         let tags = List.sort_uniq compare (List.map int_of_n (magnet_branches (bytes_of_hex h))) in
+         String.concat " " (List.map string_of_int tags)
+     | _ -> "-")
+  else
   match split_ws line with
   | "T" :: fl :: toks ->
       let (v, _) = parse_tree toks in
